@@ -1606,6 +1606,9 @@ class UnitQuaternion(Quaternion):
                     #print('*: pose array x vector')
                     return np.array([base.qvmul(x, v) for x in left._A]).T
 
+                else:
+                    raise ValueError('bad operands')
+
             elif len(left) == 1 and isinstance(right, np.ndarray) and right.shape[0] == 3:
                 # pose x stack of vectors
                 return np.array([base.qvmul(left._A, x) for x in right.T]).T
